@@ -97,6 +97,11 @@ def global_name(it, name, node=None):
         return ClassV(name, None)
     if name in it.ghost:
         return it.ghost[name]
+    import builtins as _builtins
+
+    if hasattr(_builtins, name):
+        # a Python builtin the engine has no semantics for: the name IS bound in the real interpreter -- undecided, never a NameError
+        raise Unsupported("builtin %s has no stated semantics" % name)
     it.oblige("defined", "name-bound:%s@L%s" % (name, getattr(node, "lineno", "?")), False, getattr(node, "lineno", None), note="NameError/UnboundLocalError")
     raise _Raise("NameError", node)
 
@@ -851,6 +856,7 @@ def b_round(it, x, ndigits=None):
 
 
 BUILTINS = {
+    "object": (lambda it, *a, **k: Opaque("object-instance")),  # the name `object` (dtype=object, isinstance(x, object)): a value, never interpreted
     "len": b_len, "sum": b_sum, "all": b_all, "any": b_any, "max": b_max, "min": b_min, "abs": b_abs, "float": b_float, "int": b_int,
     "isinstance": b_isinstance, "range": b_range, "zip": b_zip, "enumerate": b_enumerate, "list": b_list, "tuple": b_tuple, "dict": b_dict,
     "bisect_left": b_bisect_left, "round": b_round, "set": b_set, "sorted": b_sorted, "hasattr": b_hasattr, "dir": b_dir, "type": b_type, "getattr": b_getattr, "setattr": b_setattr, "print": b_print, "bool": b_bool, "str": b_str, "bin": b_bin, "frozenset": b_frozenset,
